@@ -108,6 +108,10 @@ func (f *frame) call(x *ssa.Call, cc *ssa.CallCommon, pc *Term, st State) {
 		}
 		switch site.Kind {
 		case "assert":
+			// an assertion about a call is a condition for making it: it is
+			// evaluated in the state just BEFORE the call (ghost updates and
+			// assumptions use the state after it)
+			env.st = pre
 			if g := f.safeEval(env, site.C); g != nil {
 				f.check("assert", f.oblName(fmt.Sprintf("call#%d(%s)/assert%s", ord, key, clauseTag(site.C, 0))), pc, g, x.Pos(), site.C)
 			}
@@ -357,7 +361,14 @@ func (f *frame) applyContract(sp *FuncSpec, callee *ssa.Function, args []Val, pc
 		if ms.all {
 			c.havocAll(st)
 		}
-		mods = ms.list()
+		// the computed mod-set is coarse; fields the caller declares preserved
+		// (closed by structural writer obligations the callee cannot reach) stay
+		kept := f.preservedHeaps(callee)
+		for _, h := range ms.list() {
+			if !kept[h] {
+				mods = append(mods, h)
+			}
+		}
 	}
 	for _, h := range mods {
 		c.havocHeap(st, h)
